@@ -98,6 +98,7 @@ type CallPlan struct {
 	HProg         []HOp
 	HErr          *ErrPlan // returned at the end of HProg (nil: success)
 	HPanic        *PanicPlan
+	KeepReceiving bool     // bidi handler: keep calling Receive after a non-EOF error
 	ReturnSendErr bool     // the handler returns the error of a failed Send (as handlers do)
 	RecoverErr    *ErrPlan // what the WithRecover function returns
 
@@ -141,6 +142,7 @@ type Scenario struct {
 	Clients       []ClientCfg
 	Calls         []*CallPlan
 	PoolFIFO      bool
+	AlgoYield     bool           // custom (de)compressors park at a scheduler gate in their first Read
 	CompFault     *compFault     // C08: one custom (de)compressor operation fails
 	CompFaultSide int            // 0 handler-side instances, 1 client-side instances
 	Notes         map[string]int // generator-side probe counters
